@@ -5,6 +5,8 @@ import GT.Model.Action
 import GT.Lemmas.Obj
 import GT.Lemmas.Units
 import GT.Model.Charts
+import GT.Model.Affine
+import Mathlib.Data.Fin.Tuple.Basic
 
 set_option linter.unusedSectionVars false
 set_option linter.unusedSimpArgs false
@@ -317,5 +319,190 @@ theorem normalizeLit_units [DecidableEq K] (rabs : K → K) (v F : ND K) {o : Li
   by_cases h0 : rabs (bil (matAt F n n []) (rowAt v n i) (rowAt v n i)) = 0
   · simp [h0, rowAt]
   · simp [h0, rowAt]
+
+/-! ### half-space charts -/
+
+/-- **lifting** of `poincare_to_halfspace` -/
+theorem p2hND_units (x : ND K) {o : List ℕ} {n : ℕ} (hx : x.shape = o ++ [n + 1]) :
+    ∃ c, p2hND x = .ok c ∧ c.shape = x.shape ∧ ∀ i, Valid o i → rowAt c (n + 1) i = p2h (rowAt x (n + 1) i) := by
+  have hlast : x.shape.getLastD 0 = n + 1 := by rw [hx]; simp
+  have hys := shape_selectLast x hx 0
+  have hvs := shape_sliceLast x hx 1 (n + 1)
+  simp only [Nat.add_sub_cancel] at hvs
+  obtain ⟨x2, hx2, hx2s, hx2wf, hx2g⟩ := normsq_units (x.sliceLast 1 (n + 1)) hvs
+  obtain ⟨den, hden, hdens, hdenwf, hdeng⟩ :=
+    zipBcast_same (fun a t => a + (t - 1) * (t - 1)) x2 (x.selectLast 0) hx2s hys
+  obtain ⟨num, hnum, hnums, hnumwf, hnumg⟩ :=
+    zipBcast_same (fun a t => 1 - a - t * t) x2 (x.selectLast 0) hx2s hys
+  have hvwf : (x.sliceLast 1 (n + 1)).WF := wf_ofFn _ _
+  obtain ⟨A, hA, hAs, _, hAg⟩ := zipBcast_lastcol (· / ·) ((x.sliceLast 1 (n + 1)).map fun t => -2 * t) den
+    (o := o) (m := n) hvs hdens
+  obtain ⟨B, hB, hBs, _, hBg⟩ := zipBcast_same (· / ·) num den hnums hdens
+  refine ⟨((full x.shape (0 : K)).setLastSlice 0 (n + 1 - 1) A).setLastIndex (n + 1 - 1) B,
+    by simp only [p2hND, hlast, hx2, hden, hnum, hA, hB], by simp [setLastIndex, setLastSlice, full], ?_⟩
+  intro i hi
+  have hfull : (full x.shape (0 : K)).shape = o ++ [n + 1] := by simp [full, hx]
+  have hss : ((full x.shape (0 : K)).setLastSlice 0 (n + 1 - 1) A).shape = o ++ [n + 1] := by
+    simp [setLastSlice, full, hx]
+  have hy : (x.selectLast 0).get i = rowAt x (n + 1) i 0 := by
+    rw [get_selectLast x hx 0 hi]; rfl
+  have htail : rowAt (x.sliceLast 1 (n + 1)) n i = Fin.tail (rowAt x (n + 1) i) := by
+    funext k
+    simp only [rowAt, Fin.tail]
+    rw [get_sliceLast x hx 1 (n + 1) hi (by simpa using k.2)]
+    rfl
+  funext j
+  refine Fin.lastCases ?_ (fun k => ?_) j
+  · simp only [rowAt, Fin.val_last, p2h, Fin.snoc_last]
+    rw [get_setLastIndex _ B hss (n + 1 - 1) hi (by omega)]
+    simp only [Nat.add_sub_cancel, if_true]
+    rw [hBg i hi, hnumg i hi, hdeng i hi, hx2g i hi, hy, htail]
+    rfl
+  · simp only [rowAt, Fin.val_castSucc, p2h, Fin.snoc_castSucc]
+    rw [get_setLastIndex _ B hss (n + 1 - 1) hi (by omega)]
+    have hk : ¬ (k.1 = n + 1 - 1) := by have := k.2; omega
+    rw [if_neg hk, get_setLastSlice _ A hfull 0 (n + 1 - 1) hi (by omega)]
+    have hk2 : 0 ≤ k.1 ∧ k.1 < n + 1 - 1 := ⟨Nat.zero_le _, by simpa using k.2⟩
+    rw [if_pos hk2, Nat.sub_zero, hAg i k.1 hi k.2,
+      get_map_wf _ _ hvwf (by rw [hvs]; exact hi.append (by simpa using k.2)),
+      hdeng i hi, hx2g i hi, hy, htail]
+    have : (x.sliceLast 1 (n + 1)).get (i ++ [k.1]) = Fin.tail (rowAt x (n + 1) i) k := by
+      rw [← htail]; rfl
+    rw [this]
+    rfl
+
+/-- **lifting** of `halfspace_to_poincare` -/
+theorem h2pND_units (x : ND K) {o : List ℕ} {n : ℕ} (hx : x.shape = o ++ [n + 1]) :
+    ∃ c, h2pND x = .ok c ∧ c.shape = x.shape ∧ ∀ i, Valid o i → rowAt c (n + 1) i = h2p (rowAt x (n + 1) i) := by
+  have hlast : x.shape.getLastD 0 = n + 1 := by rw [hx]; simp
+  have hys := shape_selectLast x hx (n + 1 - 1)
+  have hvs : (x.sliceLast 0 (n + 1 - 1)).shape = o ++ [n] := by
+    have := shape_sliceLast x hx 0 (n + 1 - 1)
+    simpa using this
+  obtain ⟨x2, hx2, hx2s, hx2wf, hx2g⟩ := normsq_units (x.sliceLast 0 (n + 1 - 1)) hvs
+  obtain ⟨den, hden, hdens, hdenwf, hdeng⟩ :=
+    zipBcast_same (fun a t => a + (t + 1) * (t + 1)) x2 (x.selectLast (n + 1 - 1)) hx2s hys
+  obtain ⟨num, hnum, hnums, hnumwf, hnumg⟩ :=
+    zipBcast_same (fun a t => a + t * t - 1) x2 (x.selectLast (n + 1 - 1)) hx2s hys
+  have hvwf : (x.sliceLast 0 (n + 1 - 1)).WF := wf_ofFn _ _
+  obtain ⟨A, hA, hAs, _, hAg⟩ := zipBcast_lastcol (· / ·) ((x.sliceLast 0 (n + 1 - 1)).map fun t => -2 * t) den
+    (o := o) (m := n) hvs hdens
+  obtain ⟨B, hB, hBs, _, hBg⟩ := zipBcast_same (· / ·) num den hnums hdens
+  refine ⟨((full x.shape (0 : K)).setLastSlice 1 (n + 1) A).setLastIndex 0 B,
+    by simp only [h2pND, hlast, hx2, hden, hnum, hA, hB], by simp [setLastIndex, setLastSlice, full], ?_⟩
+  intro i hi
+  have hfull : (full x.shape (0 : K)).shape = o ++ [n + 1] := by simp [full, hx]
+  have hss : ((full x.shape (0 : K)).setLastSlice 1 (n + 1) A).shape = o ++ [n + 1] := by
+    simp [setLastSlice, full, hx]
+  have hy : (x.selectLast (n + 1 - 1)).get i = rowAt x (n + 1) i (Fin.last n) := by
+    rw [get_selectLast x hx _ hi]; rfl
+  have hinit : rowAt (x.sliceLast 0 (n + 1 - 1)) n i = Fin.init (rowAt x (n + 1) i) := by
+    funext k
+    simp only [rowAt, Fin.init]
+    rw [get_sliceLast x hx 0 (n + 1 - 1) hi (by simpa using k.2)]
+    rfl
+  funext j
+  refine Fin.cases ?_ (fun k => ?_) j
+  · simp only [rowAt, Fin.val_zero, h2p, Fin.cons_zero]
+    rw [get_setLastIndex _ B hss 0 hi (by omega)]
+    simp only [if_true]
+    rw [hBg i hi, hnumg i hi, hdeng i hi, hx2g i hi, hy, hinit]
+    rfl
+  · simp only [rowAt, Fin.val_succ, h2p, Fin.cons_succ]
+    rw [get_setLastIndex _ B hss 0 hi (by have := k.2; omega)]
+    rw [if_neg (by omega), get_setLastSlice _ A hfull 1 (n + 1) hi (by have := k.2; omega)]
+    have hk2 : 1 ≤ k.1 + 1 ∧ k.1 + 1 < n + 1 := ⟨by omega, by have := k.2; omega⟩
+    rw [if_pos hk2, Nat.add_sub_cancel, hAg i k.1 hi k.2,
+      get_map_wf _ _ hvwf (by rw [hvs]; exact hi.append (by simpa using k.2)),
+      hdeng i hi, hx2g i hi, hy, hinit]
+    have : (x.sliceLast 0 (n + 1 - 1)).get (i ++ [k.1]) = Fin.init (rowAt x (n + 1) i) k := by
+      rw [← hinit]; rfl
+    rw [this]
+    rfl
+
+/-! ### affine charts -/
+
+theorem succAbove_val {n : ℕ} (c : Fin (n + 1)) (k : Fin n) :
+    (c.succAbove k).1 = if k.1 < c.1 then k.1 else k.1 + 1 := by
+  unfold Fin.succAbove
+  split <;> rename_i h <;> simp [Fin.lt_def] at h <;> simp [h]
+
+/-- **lifting** of `affine_coords(·, chart_index=c)`: every chart, every composite rank -/
+theorem affineCoordsND_units (x : ND K) {o : List ℕ} {n : ℕ} (hx : x.shape = o ++ [n + 1]) (c : Fin (n + 1)) :
+    ∃ r, affineCoordsND x c.1 = .ok r ∧ r.shape = o ++ [n] ∧
+      ∀ i, Valid o i → rowAt r n i = GT.Affine.affineCoords c (rowAt x (n + 1) i) := by
+  have hxT : x.T.shape = [n + 1] ++ o.reverse := by simp [hx]
+  have hsub := shape_sub x.T (s := [n + 1]) (t := o.reverse) (i := [c.1]) hxT rfl
+  have hb : bcastShape x.T.shape (x.T.sub [c.1]).shape = some ((n + 1) :: o.reverse) := by
+    rw [hxT, hsub]; exact bcastShape_cons_self (n + 1) o.reverse
+  obtain ⟨q, hq, hqs, hqg⟩ := zipBcast_spec (· / ·) x.T (x.T.sub [c.1]) hb
+  have hqT : q.T.shape = o ++ [n + 1] := by simp [hqs]
+  refine ⟨q.T.deleteLast c.1, by simp [affineCoordsND, hq], by simpa using shape_deleteLast q.T hqT c.1, ?_⟩
+  intro i hi
+  funext k
+  simp only [rowAt, GT.Affine.affineCoords]
+  rw [get_deleteLast q.T hqT c.1 hi (by simpa using k.2), ← succAbove_val c k]
+  -- entry (i, j) of q.T
+  have key : ∀ j, j < n + 1 → q.T.get (i ++ [j]) = x.get (i ++ [j]) / x.get (i ++ [c.1]) := by
+    intro j hj
+    have hvr : Valid ((n + 1) :: o.reverse) (j :: i.reverse) := ⟨hj, valid_reverse.2 hi⟩
+    have e : i ++ [j] = (j :: i.reverse).reverse := by simp
+    rw [e, get_T_rev q (by rw [hqs]; exact hvr), hqg _ hvr, hxT, hsub]
+    have e1 : bcIx ([n + 1] ++ o.reverse) (j :: i.reverse) = j :: i.reverse := bcIx_self hvr
+    have e2 : bcIx o.reverse (j :: i.reverse) = i.reverse := by
+      have hl : (j :: i.reverse).length - o.reverse.length = 1 := by simp [hi.length]
+      unfold bcIx
+      rw [hl]
+      simp only [List.drop_succ_cons, List.drop_zero]
+      have := bcIx_self (valid_reverse.2 hi)
+      unfold bcIx at this
+      simpa [hi.length] using this
+    rw [e1, e2, get_sub x.T (i := [c.1]) hxT rfl (valid_reverse.2 hi)]
+    have g1 := get_T_rev x (ix := i ++ [j]) (by rw [hx]; exact hi.append (by simpa using hj))
+    have g2 := get_T_rev x (ix := i ++ [c.1]) (by rw [hx]; exact hi.append (by simpa using c.2))
+    simp only [List.reverse_append, List.reverse_cons, List.reverse_nil, List.nil_append,
+      List.singleton_append] at g1 g2
+    rw [g1]
+    simp only [List.singleton_append] at g2 ⊢
+    rw [g2]
+    simp
+  rw [key _ (c.succAbove k).2]
+
+/-- **lifting** of `projective_coords(·, chart_index=c)` -/
+theorem projCoordsND_units (a : ND K) {o : List ℕ} {n : ℕ} (ha : a.shape = o ++ [n]) (c : Fin (n + 1)) :
+    (projCoordsND a c.1).shape = o ++ [n + 1] ∧
+      ∀ i, Valid o i → rowAt (projCoordsND a c.1) (n + 1) i = GT.Affine.projCoords c (rowAt a n i) := by
+  have hlast : a.shape.getLastD 0 = n := by rw [ha]; simp
+  have hdl : a.shape.dropLast = o := by rw [ha]; simp
+  set idx := (List.range n).map fun j => if j < c.1 then j else j + 1 with hidx
+  have hlen : idx.length = n := by simp [hidx]
+  have hfull : (full (o ++ [n + 1]) (0 : K)).shape = o ++ [n + 1] := rfl
+  have hs1 : ((full (o ++ [n + 1]) (0 : K)).setLastIdx idx a).shape = o ++ [n + 1] := rfl
+  have hnodup : idx.Nodup := by
+    rw [hidx]
+    refine (List.nodup_range).map_on ?_
+    intro x _ y _ h
+    split at h <;> split at h <;> omega
+  have hcnot : c.1 ∉ idx := by
+    rw [hidx]; simp only [List.mem_map, List.mem_range, not_exists, not_and]
+    intro x _; split <;> omega
+  have hunf : projCoordsND a c.1 = ((full (o ++ [n + 1]) (0 : K)).setLastIdx idx a).setLastConst c.1 1 := by
+    unfold projCoordsND
+    simp only [hlast, hdl, hidx]
+  refine ⟨by rw [hunf]; rfl, fun i hi => ?_⟩
+  funext j
+  simp only [rowAt, hunf]
+  rw [get_setLastConst _ hs1 c.1 1 hi j.2]
+  rcases Fin.eq_self_or_eq_succAbove c j with rfl | ⟨k, rfl⟩
+  · simp [GT.Affine.projCoords]
+  · have hne : (c.succAbove k).1 ≠ c.1 := fun h => Fin.succAbove_ne c k (Fin.ext h)
+    rw [if_neg hne, get_setLastIdx _ a hfull idx hi (c.succAbove k).2]
+    have hk : k.1 < idx.length := by rw [hlen]; exact k.2
+    have hget : idx[k.1] = (c.succAbove k).1 := by
+      simp [hidx, succAbove_val]
+    have hio : idx.idxOf (c.succAbove k).1 = k.1 := by
+      rw [← hget]; exact hnodup.idxOf_getElem k.1 hk
+    rw [hio, if_pos hk]
+    simp [GT.Affine.projCoords, rowAt]
 
 end GT.Act
